@@ -316,10 +316,20 @@ def run(ctx: Ctx):
     rng = ctx.rng
     globals_ = glb_names()
     jobs, cases = [], []
-    nsc = ctx.n(4, 120)
+    nsc = ctx.n(9, 120)
+    rest = OPTION_SETS[1:]
+    rng.shuffle(rest)
     for s in range(nsc):
         spec = rich.random_spec(rng)
-        osets = OPTION_SETS if not ctx.quick() else [OPTION_SETS[0]] + rng.sample(OPTION_SETS[1:], 7)
+        if s == 0:
+            spec.update(sub_ns=True, bad_dur=True, short=True, overlap_depth=5)
+        if s == 1:
+            spec.update(layout="subdirs", dma_only=True, R=max(2, spec["R"]))
+        if s == 2:
+            spec.update(R=2, groups=max(1, spec["groups"]), stale=True)
+        # quick: the option sets go round-robin over the scenarios, so every set runs at least twice per check
+        osets = OPTION_SETS if not ctx.quick() else \
+            [OPTION_SETS[0]] + [rest[(s * 6 + j) % len(rest)] for j in range(6)]
         for oi, o in enumerate(osets):
             with_I = (oi % 4 == 0) or (o[:2] == ["-O", "drop"])
             pre = rng.choice(PREDECESSORS) if oi % 3 == 1 else None
